@@ -223,6 +223,9 @@ pub enum Op {
     AppendFrom(usize, usize),
     Drain(usize, Vec<PathEl>, usize, usize),
     ExtendFromWithin(usize, Vec<PathEl>, usize, usize),
+    /// the same with every kind of range bound: (0 included, 1 excluded, 2 unbounded; position)
+    DrainBounds(usize, Vec<PathEl>, (u8, usize), (u8, usize)),
+    ExtendFromWithinBounds(usize, Vec<PathEl>, (u8, usize), (u8, usize)),
     Resize(usize, Vec<PathEl>, usize, Lit),
     ResizeWith(usize, Vec<PathEl>, usize),
     IterMutSet(usize, Vec<PathEl>, Lit),
@@ -316,6 +319,14 @@ fn m_at_mut<'a>(m: &'a mut M, p: &[PathEl]) -> Option<&'a mut M> {
 pub struct Machine {
     pub regs: Vec<Value>,
     pub model: Vec<M>,
+}
+
+fn bound(b: &(u8, usize)) -> std::ops::Bound<usize> {
+    match b.0 {
+        0 => std::ops::Bound::Included(b.1),
+        1 => std::ops::Bound::Excluded(b.1),
+        _ => std::ops::Bound::Unbounded,
+    }
 }
 
 fn guarded<R>(f: impl FnOnce() -> R) -> Result<R, ()> {
@@ -522,6 +533,21 @@ impl Machine {
                 }
                 v.extend_from_within(*a..*b);
                 Out::Unit
+            }
+            // (the model is Vec itself, bounds and panics included)
+            DrainBounds(r, p, a, b) => {
+                let v = arr!(r, p);
+                match guarded(|| v.drain((bound(a), bound(b))).collect::<Vec<_>>()) {
+                    Ok(d) => Out::Vals(d),
+                    Err(()) => Out::Panicked,
+                }
+            }
+            ExtendFromWithinBounds(r, p, a, b) => {
+                let v = arr!(r, p);
+                match guarded(|| v.extend_from_within((bound(a), bound(b)))) {
+                    Ok(()) => Out::Unit,
+                    Err(()) => Out::Panicked,
+                }
             }
             Resize(r, p, n, l) => {
                 arr!(r, p).resize(*n, l.model());
@@ -980,6 +1006,15 @@ impl Machine {
             ExtendFromWithin(r, p, a, b) => {
                 let arr = arr!(r, p);
                 may_panic!(arr.extend_from_within(*a..*b));
+                Out::Unit
+            }
+            DrainBounds(r, p, a, b) => {
+                let arr = arr!(r, p);
+                Out::Vals(may_panic!(arr.drain((bound(a), bound(b))).map(|x| dump(&x)).collect::<Vec<_>>()))
+            }
+            ExtendFromWithinBounds(r, p, a, b) => {
+                let arr = arr!(r, p);
+                may_panic!(arr.extend_from_within((bound(a), bound(b))));
                 Out::Unit
             }
             Resize(r, p, n, l) => {
@@ -1558,6 +1593,19 @@ pub fn rand_op(r: &mut Rng, model: &[M]) -> Op {
         48 => ObjClear(reg, op(r)),
         49 => ValueInsert(reg, (*r.pick(KEYS)).to_string(), rand_lit(r)),
         50 => ValueAppend(reg, rand_lit(r)),
+        57 | 58 => {
+            let p = ap(r);
+            let n = alen(&p);
+            let a = (r.below(3) as u8, idx(r, n));
+            let b = (r.below(3) as u8, idx(r, n));
+            // mostly ordered, sometimes not (Vec panics, so must the array)
+            let (a, b) = if a.1 > b.1 && r.chance(3, 4) { ((a.0, b.1), (b.0, a.1)) } else { (a, b) };
+            if r.chance(1, 2) {
+                DrainBounds(reg, p, a, b)
+            } else {
+                ExtendFromWithinBounds(reg, p, a, b)
+            }
+        }
         _ => Read(reg, rand_path(r, m)),
     }
 }
